@@ -32,6 +32,10 @@ class HelpResolver(DefaultResolver):
     ):  # type: (ResolveResult) -> ResolvedCommand
         result.command.config.enable_lenient_args_parsing()
 
+        # The arguments may already have been parsed strictly while looking
+        # for a parsable default command: parse them again, leniently.
+        result = ResolveResult(result.command, result.raw_args)
+
         resolved_command = super(HelpResolver, self).create_resolved_command(result)
 
         result.command.config.disable_lenient_args_parsing()
